@@ -182,17 +182,26 @@ func (collection *linkCollectionImpl) IsLinked(tx *bbolt.Tx, id, relatedId []byt
 	return cursor.IsValid() && bytes.Equal(cursor.Current(), relatedId)
 }
 
+// getFieldBucketReadOnly returns the link bucket if it exists, without creating it
+func (collection *linkCollectionImpl) getFieldBucketReadOnly(tx *bbolt.Tx, id []byte) *TypedBucket {
+	entityBucket := collection.field.GetStore().GetEntityBucket(tx, id)
+	if entityBucket == nil {
+		return nil
+	}
+	return entityBucket.GetPath(collection.field.GetPath()...)
+}
+
 func (collection *linkCollectionImpl) GetLinks(tx *bbolt.Tx, id string) []string {
-	fieldBucket := collection.getFieldBucketForStringId(tx, id)
-	if !fieldBucket.HasError() {
+	fieldBucket := collection.getFieldBucketReadOnly(tx, []byte(id))
+	if fieldBucket != nil && !fieldBucket.HasError() {
 		return fieldBucket.ReadStringList()
 	}
 	return nil
 }
 
 func (collection *linkCollectionImpl) IterateLinks(tx *bbolt.Tx, id []byte) ast.SeekableSetCursor {
-	fieldBucket := collection.getFieldBucket(tx, id)
-	if !fieldBucket.HasError() {
+	fieldBucket := collection.getFieldBucketReadOnly(tx, id)
+	if fieldBucket != nil && !fieldBucket.HasError() {
 		return fieldBucket.IterateStringList()
 	}
 	return ast.EmptyCursor
